@@ -2,8 +2,9 @@
    correspondence driver and by the non-vacuity examples:
    - flat filestore (name -> content); a name containing '/' lies in a directory that does
      not exist, so writing it fails (FileStoreRejection path);
-   - filestore requests are echoed (the lock-step streams carry none; the request
-     semantics is component `fsmodel`, property C13);
+   - filestore requests are echoed: the state machines only decide WHEN and in WHICH ORDER requests
+     are executed and how the responses are reported; what a request does to the filestore is
+     component `fsmodel` (property C13);
    - the file checksum is Checksum.spec (component `checksum`, property C14). *)
 From CFDP Require Import Base.Prelude Model.Checksum Model.Timer Model.TxTypes Model.Recv Model.Send.
 
@@ -33,6 +34,11 @@ Definition inst_tlv_len (r : bytes) : N := 2 + N.of_nat (length r).
 Definition inst_cksum (t : cktype) (b : bytes) : N :=
   match t with CkNull => 0 | CkModular => Checksum.spec b end.
 
+(* a filestore response TLV is one octet longer than the request it answers (the empty message LV);
+   the harness prints a response as the request it answers - action, names - and checks its status
+   in the C13 oracle *)
+Definition inst_resp_len (r : bytes) : N := inst_tlv_len r + 1.
+
 Definition inst_rstep :=
-  rstep flat_fs flat_write inst_exec inst_resp_fail inst_not_performed inst_cksum inst_tlv_len inst_tlv_len.
+  rstep flat_fs flat_write inst_exec inst_resp_fail inst_not_performed inst_cksum inst_resp_len inst_tlv_len.
 Definition inst_sstep := sstep inst_cksum inst_tlv_len inst_tlv_len.
